@@ -42,8 +42,27 @@ def wstep (w : Whole) (e : Ev) : Whole :=
     else w'
   | _ => w'
 
+/-- The metadata a `fetchOk` event hands over is identified by the start time of the fetch that produced it: along the
+run, every `fetchOk m` has `m.stamp` = the start time of the fetch in flight. (Any event list can be stamped this way;
+the stamp is ghost - the Rust `Metadata` has no such field - and no step of either model reads it.) -/
+def WellStamped : Whole → List Ev → Prop
+  | _, [] => True
+  | w, e :: rest =>
+    (match e with
+     | .fetchOk m => m.stamp = w.t.fetchStart
+     | _ => True) ∧ WellStamped (wstep w e) rest
+
+/-- Stamps the `fetchOk` events of an event list as `WellStamped` wants them. -/
+def restamp : Whole → List Ev → List Ev
+  | _, [] => []
+  | w, e :: rest =>
+    let e' := match e with
+      | .fetchOk m => .fetchOk { m with stamp := w.t.fetchStart }
+      | e => e
+    e' :: restamp (wstep w e') rest
+
 def wrun (w : Whole) (evs : List Ev) : Whole := evs.foldl wstep w
 
-def winit (sub : Bool) (t0 : Nat) : Whole := { cons := { hasSubscriber := sub, published := t0 } }
+def winit (sub : Bool) (t0 : Topo) : Whole := { cons := Consumer.start sub 0 t0 }
 
 end ScyllaVerif.C19Whole
